@@ -151,6 +151,12 @@ class World:
         self.carried_before: list[str] = []
         self.cycle_no = 0
         self.decision_mdel = True            # did H match the view on which the oldest pending fn was decided
+        self.decision_labelled = True
+        self.loop = env.loop                 # (a virtual-time loop in the daemon worlds of c06_daemon.py)
+        self.consistency_time: Any = None    # passed to process_resource_event by the next cycle
+        self.ctime_used = False
+        self.write_extra: dict = {}
+        self.steady = True                   # no verdict-changing edit while a cycle was in progress or fns were carried
         self.chg_delays: list[list] = []
 
     def _mkfn(self, hid: str) -> Any:
@@ -174,6 +180,19 @@ class World:
     def labelled(self) -> bool:
         doc = self.srv.doc if self.srv.doc is not None else self.srv.last_doc
         return doc['metadata'].get('labels', {}).get('app') == 'x'
+
+    # ---- hooks of the timed (daemon) worlds
+    def wrap(self, label: str) -> str:
+        return label
+
+    def mdmn_of(self, labelled: bool) -> bool:
+        return False
+
+    def before_cycle(self) -> None:
+        pass
+
+    def after_cycle_run(self) -> None:
+        pass
 
     def mdel(self) -> bool:
         return self.labelled() if self.filtered else True
@@ -206,25 +225,37 @@ class World:
         if a['do'] in ('foreign_add', 'foreign_del'):
             return f'LForeign {cq.clist(cq.cstr(x) for x in self.srv.fins())}'
         if a['do'] in ('label', 'spec'):
-            return f'LMatch {cq.cbool(self.mdel())} false'
+            return f'LMatch {cq.cbool(self.mdel())} {cq.cbool(self.mdmn_of(self.labelled()))}'
         if a['do'] == 'delete':
             return 'LDelete'
         raise RuntimeError(a)
 
+    def verdict_on_label(self) -> bool:
+        return self.filtered
+
+    def note_edit(self, a: dict, labelled_before: bool, in_cycle: bool) -> None:
+        if a['do'] == 'label' and a['on'] != labelled_before and self.verdict_on_label() and (in_cycle or self.carried()):
+            self.steady = False
+
     def foreign_action(self, a: dict) -> None:
+        before = self.labelled()
+        if self.srv.doc is not None:
+            self.note_edit(a, before, False)
         if self.srv.act(a):
-            self.trace.append((self.label_of(a), self.obs()))
+            self.trace.append((self.wrap(self.label_of(a)), self.obs()))
             self.readable.append(a)
 
     def restart(self) -> None:
         self.memories = self.env.inventory.ResourceMemories()
-        self.trace.append(('LRestart', self.obs()))
+        self.trace.append((self.wrap('LRestart'), self.obs()))
         self.readable.append({'do': 'restart'})
 
     def cycle(self, interleave: dict | None) -> None:
         env, srv = self.env, self.srv
         self.cycle_no += 1
-        ev_type = 'MODIFIED' if srv.doc is not None else 'DELETED'
+        ev_type: Any = 'MODIFIED' if srv.doc is not None else 'DELETED'
+        if srv.doc is not None and not list(self.memories._items.values()):
+            ev_type = None                       # the first sight of the object by this incarnation: the initial listing
         raw = {'type': ev_type, 'object': copy.deepcopy(srv.doc if srv.doc is not None else srv.last_doc)}
         view_rec = self.rec(raw['object'])
         srv.log.clear()
@@ -236,6 +267,9 @@ class World:
         self.chg_delays.clear()
         pressure = asyncio.Event()
         pressure.set()
+        ctime, self.consistency_time = self.consistency_time, None
+        self.ctime_used = ctime is not None
+        self.before_cycle()
         real_po, real_chg, real_api = env.patching.patch_obj, env.processing.process_changing_cause, env.api.patch
         w = self
 
@@ -253,8 +287,10 @@ class World:
                 return await env.processing.process_resource_event(
                     lifecycle=env.lifecycles.all_at_once, indexers=self.indexers, registry=self.reg, settings=env.settings,
                     memories=self.memories, memobase=env.ephemera.Memo(), resource=self.resource, raw_event=raw,
-                    event_queue=asyncio.Queue(), stream_pressure=pressure, no_throttling=True)
-            env.loop.run_until_complete(go())
+                    event_queue=asyncio.Queue(), stream_pressure=pressure, no_throttling=True,
+                    consistency_time=ctime)
+            self.loop.run_until_complete(go())
+            self.after_cycle_run()
         finally:
             env.patching.patch_obj, env.processing.process_changing_cause, env.api.patch = real_po, real_chg, real_api
         new_calls = self.calls[calls_before:]
@@ -272,9 +308,9 @@ class World:
         rec_after = self.rec(srv.doc if srv.doc is not None else srv.last_doc)
         k = (f'{{| k_spawn_others := nil; k_chg_others := '
              + cq.clist(f'{{| ch_reqfin := {cq.cbool(bool(h.requires_finalizer))}; ch_prematch := true |}}' for h in others)
-             + f'; k_low_empty := true; k_ctime := CtNone; k_timed_out := true; k_sdelays_others := nil; '
+             + f'; k_low_empty := true; k_ctime := {"CtSome" if self.ctime_used else "CtNone"}; k_timed_out := {cq.cbool(not self.ctime_used)}; k_sdelays_others := nil; '
              f'k_cdelays_others := {m.czs([1] * others_delays)}; k_h_finishes := {cq.cbool(h_fin)}; '
-             f'k_other_rec := {cq.cbool(rec_after)}; k_extra_merge := {cq.cbool(bool(merges))} |}}')
+             f'k_other_rec := {cq.cbool(rec_after)}; k_extra_merge := {cq.cbool(bool(merges))}; k_stop := SStill |}}')
         labels: list[str] = ['LEvent', f'LCycle {k}']
         n_merge = 0
         got_404 = False
@@ -283,7 +319,7 @@ class World:
                 labels.append(self.label_of_logged(e[1]))
             elif e[1] == 'application/merge-patch+json':
                 n_merge += 1
-                labels.append('LMerge' if n_merge == 1 else f'LMatch {cq.cbool(self.mdel())} false')   # a later touch: rv only
+                labels.append('LMerge' if n_merge == 1 else f'LMatch {cq.cbool(self.mdel())} {cq.cbool(self.mdmn_of(self.labelled()))}')   # a later touch: rv only
                 got_404 = got_404 or e[2] == 404
             else:
                 labels.append('LJson')
@@ -291,8 +327,13 @@ class World:
         fns_at_apply = self.po_calls[0] if self.po_calls else 0
         if fns_at_apply and not jsons and not (merges and merges[0][2] == 404):
             labels.append('LJson')                    # ops were computed and came out empty: nothing was sent
+        for e in srv.log:
+            if e[0] == 'foreign':
+                self.note_edit(e[1], raw['object']['metadata'].get('labels', {}).get('app') == 'x', True)
         if srv.foreign is not None:                   # the scheduled interleaving did not get its turn: it happens now
             f, srv.foreign = srv.foreign, None
+            if srv.doc is not None:
+                self.note_edit(f, self.labelled(), False)
             if srv.act(f):
                 labels.append(self.label_of(f))
                 srv.log.append(('foreign', f))
@@ -301,6 +342,7 @@ class World:
         view_mdel = (view_md.get('labels', {}).get('app') == 'x') if self.filtered else True
         if not self.carried_before:
             self.decision_mdel = view_mdel
+            self.decision_labelled = view_md.get('labels', {}).get('app') == 'x'
         for e in srv.log:
             if e[0] != 'req' or e[1] != 'application/json-patch+json':
                 continue
@@ -309,16 +351,16 @@ class World:
             adds = any(op.get('op') == 'add' and (op.get('value') == FIN or op.get('value') == [FIN] or
                                                   (isinstance(op.get('value'), list) and FIN in op['value'])) for op in payload)
             self.writes.append({
-                'cycle': self.cycle_no, 'status': e[2], 'tested': payload[0] if payload else None,
+                'cycle': self.cycle_no, 't': self.loop.time(), **self.write_extra, 'status': e[2], 'tested': payload[0] if payload else None,
                 'before': list(bmd.get('finalizers', [])), 'after': list(after['metadata'].get('finalizers', [])) if after else None,
-                'deleting': bool(bmd.get('deletionTimestamp')), 'adds_own': adds,
+                'deleting': bool(bmd.get('deletionTimestamp')), 'adds_own': adds, 'labelled_now': bmd.get('labels', {}).get('app') == 'x', 'labelled_at_decision': self.decision_labelled,
                 'h_matches_now': (bmd.get('labels', {}).get('app') == 'x') if self.filtered else True,
                 'h_matched_in_view': view_mdel, 'h_matched_at_decision': self.decision_mdel,
                 'carried_in': fns_at_apply > 0 and bool(self.carried_before),
                 'h_done': self.done})
         for lab in labels[:-1]:
-            self.trace.append((lab, None))
-        self.trace.append((labels[-1], self.obs()))
+            self.trace.append((self.wrap(lab), None))
+        self.trace.append((self.wrap(labels[-1]), self.obs()))
         self.readable.append({'do': 'cycle', 'event': ev_type, 'interleave': interleave, 'view_rec': view_rec,
                               'calls': [{k2: c[k2] for k2 in ('id', 'reason', 'outcome')} for c in new_calls],
                               'requests': [[e[1].split('/')[1].split('+')[0], e[2]] if e[0] == 'req' else ['foreign', e[1]['do']] for e in srv.log],
@@ -337,7 +379,7 @@ class World:
                 if e[0] == 'foreign' and e[1] is a:
                     doc = self.srv.log[i + 1][3]
                     lab = doc['metadata'].get('labels', {}).get('app') == 'x' if doc else False
-                    return f'LMatch {cq.cbool(lab if self.filtered else True)} false'
+                    return f'LMatch {cq.cbool(lab if self.filtered else True)} {cq.cbool(self.mdmn_of(lab))}'
         if a['do'] == 'delete':
             return 'LDelete'
         raise RuntimeError(a)
@@ -359,6 +401,8 @@ def gen_scenario(r: Any, i: int) -> dict:
         x = r.random()
         if x < 0.45:
             a: dict[str, Any] = {'do': 'cycle'}
+            if r.random() < 0.12:
+                a['inconsistent'] = True
             if r.random() < 0.5:
                 a['interleave'] = {**gen_foreign(r, deleted), 'before': r.choice([0, 0, 1])}
         elif x < 0.53 and not deleted:
@@ -394,6 +438,8 @@ def run_scenario(env: m.Env, sc: dict) -> World:
     w = World(env, sc['variant'], scripts, sc['labelled'], sc['foreign'])
     for a in sc['actions']:
         if a['do'] == 'cycle':
+            if a.get('inconsistent'):
+                w.consistency_time = w.loop.time() + 5       # a version is awaited; new events have arrived (pressure set)
             w.cycle(a.get('interleave'))
         elif a['do'] == 'restart':
             w.restart()
@@ -427,6 +473,10 @@ def monitors(ctx: fw.Ctx, sc: dict, w: World) -> None:
                      {**case, 'write': q, 'handler': 'h', 'id_shared_with_other_cause': w.c_shared,
                       'filters_changed_between_decision_and_write': q['h_matched_at_decision'] != q['h_matches_now']},
                      observed=[c for c in w.calls if c['id'] == 'h'][-4:], sig='released-early-handler')
+    if w.steady and not w.c_shared and any(FIN in q['before'] and q['after'] is not None and FIN not in q['after'] and q['status'] == 200
+                                             and w.c_del and q['h_matches_now'] and not q['h_done'] for q in w.writes):
+        ctx.correspondence_break('T:steady', {'detail': 'a steady history with unshared ids released the finalizer early: '
+                                                         'C06_not_released_early_steady does not describe the implementation', 'case': case})
     doc = w.srv.doc
     if doc is not None and doc['metadata'].get('deletionTimestamp') and FIN in doc['metadata'].get('finalizers', []):
         ctx.fail('object marked for deletion keeps the framework finalizer after everything has finished', case,
@@ -437,7 +487,7 @@ def match_f601(f: dict) -> bool:
     """F601: a release decided while the deletion handler's filters did not match is carried over a 422 (or computed on
     the merge-patch response) and lands after an edit made them match again; ids are not shared (that is F8)."""
     c = f['case']
-    return (f['sig'] == 'released-early-handler' and c.get('layer') == 'function' and not c.get('id_shared_with_other_cause')
+    return (f['sig'] in ('released-early-handler', 'released-early-daemon') and c.get('layer') == 'function' and not c.get('id_shared_with_other_cause')
             and bool(c.get('filters_changed_between_decision_and_write')))
 
 
@@ -459,11 +509,14 @@ def run(ctx: fw.Ctx, env: m.Env, n: int) -> list[fw.Case]:
         monitors(ctx, sc, w)
         init = f'(fl_init {w.cfg()} {cq.clist(cq.cstr(x) for x in sc["foreign"])} {cq.cbool(sc["labelled"] if w.filtered else True)} false)'
         hist = cq.clist(f'({lab}, {ob if ob is not None else "None"})' for lab, ob in w.trace)
-        term = f'fl_history_ok {w.cfg()} {init} {hist}'
+        term = f'fl_history_ok {w.cfg()} {init} {hist} && Bool.eqb (fl_history_steady {w.cfg()} {init} {hist}) {cq.cbool(w.steady)}'
+        ctx.count('trace_guard', 'steady' if w.steady else 'not-steady')
         cases.append(fw.Case(term, {'layer': 'function', 'what': 'trace', 'scenario': sc, 'log': w.readable},
                              diag=f'fl_replay {w.cfg()} {init} {hist} 0'))
         ctx.cov['traces_validated_against_impl'] += 1
         ctx.count('trace_variant', sc['variant'])
+        ctx.count('trace_cycles', 'inconsistent-view', sum(1 for a in sc['actions'] if a.get('inconsistent')))
+        ctx.count('trace_cycles', 'plain', sum(1 for a in sc['actions'] if a['do'] == 'cycle' and not a.get('inconsistent')))
         ctx.count('trace_labels', 'total', len(w.trace))
         kinds = {json.dumps(x.get('requests')) for x in w.readable if x.get('do') == 'cycle'}
         for kd in kinds:
